@@ -212,7 +212,8 @@ func WakePublishListeners(onlyInternal bool, subIDs ...uuid.UUID) {
 	for _, subID := range subIDs {
 		waitSet := pubWaiters[subID]
 		if waitSet == nil {
-			return
+			// nobody is waiting on this one, the others still need their wake-up
+			continue
 		}
 		for c := range waitSet {
 			close(c)
